@@ -226,6 +226,8 @@ pub struct XzFile {
     // ---- overrides ----
     pub hmagic_xor: u8,
     pub hflags0: u8,
+    /// check id written to the stream header when it should differ from the one the file is built with
+    pub hcheck_override: Option<u8>,
     pub hcrc_xor: u32,
     pub idx_count: Option<u64>,
     /// override (record index, which: 0 unpadded / 1 unpacked, value)
@@ -282,7 +284,7 @@ impl XzFile {
         magic[0] ^= self.hmagic_xor;
         o.extend_from_slice(&magic);
         mark("hmagic", 0, 6);
-        let flags = [self.hflags0, self.check];
+        let flags = [self.hflags0, self.hcheck_override.unwrap_or(self.check)];
         o.extend_from_slice(&flags);
         mark("hflags", 6, 8);
         o.extend_from_slice(&(crc32(&flags) ^ self.hcrc_xor).to_le_bytes());
